@@ -28,11 +28,12 @@ CHECKS = {
   'note': _GRAMMAR_NOTE,
  },
  'C17': {
-  'technique': 'property-based testing: generated creation histories, fresh-process differential + validity model + algebraic laws',
+  'technique': 'property-based testing: generated creation histories, fresh-process differential + validity model + algebraic laws; exhaustive enumeration of the single-option part of the domain',
   'text': 'Hypothesis generates histories of up to 6 BeartypeConf constructions plus a final one from per-option pools of valid, invalid and '
           'look-alike values (1/True, IntEnum ints, list/tuple, dict/FrozenDict, BEARTYPE_IS_COLOR variants). Each history runs in a forked '
           'pristine process; the final outcome is compared with a sibling fork running only the final call and with an independent validity model; '
-          'identity under keyword permutation, eq/hash coherence, option read-back and the kwargs round trip are asserted on every configuration created.',
+          'identity under keyword permutation, eq/hash coherence, option read-back and the kwargs round trip are asserted on every configuration created. Every (option, pool value) '
+          'pair alone and every ordered pair of distinct valid values of one option are enumerated in both tiers.',
   'note': 'Bounded exploration (about 1.2k histories quick, 40k thorough); value pools are finite and hand-chosen from the documented option types; thread identity is covered by C15.',
  },
  'C04': {
@@ -135,11 +136,12 @@ CHECKS = {
   'note': '~360 histories in the quick tier (two forks each; fork throughput of the sandbox is the limit); answers compared as verdict / exception class.',
  },
  'C15': {
-  'technique': 'schedule fuzzing with a controlled scheduler: sys.settrace yield points + cooperative locks, Hypothesis-generated and enumerated one-preemption schedules, sequential-order oracle',
+  'technique': 'schedule fuzzing with a controlled scheduler: sys.settrace yield points + cooperative locks, Hypothesis-generated schedules, one-preemption line sweeps and sync-point sweeps (preempt after every return from cache / pool / registry code and after every lock release), sequential-order oracle',
   'text': '2-3 threads of public operations run under a scheduler that owns every context switch (line events inside beartype are yield points; beartype\'s locks '
           'are cooperative wrappers installed before beartype is imported, so blocking yields to the scheduler and all-blocked is reported as deadlock). Schedules are '
-          'lists of run lengths drawn by Hypothesis or one-preemption sweeps over the first thread; each run uses fresh keys so that it exercises first-time cache paths. '
-          'Results must match a sequential order, singletons must be shared across threads, and no exception or deadlock may occur.',
+          'lists of run lengths drawn by Hypothesis, one-preemption sweeps over the first thread, or sweeps over its sync points (returns from cache / pool / lock / registry '
+          'modules and lock releases, calibrated on a warm run); each run uses fresh keys so that it exercises first-time cache paths. Results - including the final state of '
+          'the hook registry - must match a sequential order, singletons must be shared across threads, and no exception or deadlock may occur.',
   'note': 'Bounded schedule space (<= 6 preemptions, line granularity; opcode-level tracing crashes CPython 3.12.1 and is off). ~80 cases x 4-40 schedules quick. '
           'Scheduler timeouts and child crashes are counted as inconclusive, never as violations.',
  },
